@@ -17,7 +17,7 @@ Definition handler_exact (k : N) (f : handler_fn) : Prop :=
   forall q cfg ctx fr cap,
     q_op q = k -> wf_facts q -> env_ok cfg cap q = true ->
     exists a, f cfg (qhdr q) ctx (body q) fr cap = (expected_calls q ctx, a)
-              /\ (needs_answer k = true -> replies a = true).
+              /\ action_kind_ok k a = true.
 
 Lemma encf_nil_app (x : bytes) : encf [] ++ x = x.
 Proof. reflexivity. Qed.
@@ -58,11 +58,9 @@ Ltac kc_compute :=
   end.
 
 Ltac answers :=
-  first
-  [ let HNA := fresh "HNA" in intro HNA; vm_compute in HNA; discriminate HNA
-  | intros _; cbv beta delta [unit_reply entry_reply attr_reply replies];
-    match goal with F : fsres |- _ => destruct F end; try reflexivity;
-    repeat match goal with |- context [if ?c then _ else _] => destruct c end; reflexivity ].
+  cbv beta delta [unit_reply entry_reply attr_reply];
+  match goal with F : fsres |- _ => destruct F end; try reflexivity;
+  repeat match goal with |- context [if ?c then _ else _] => destruct c end; reflexivity.
 
 Ltac finish :=
   cbn [h_nodeid qhdr]; unfold land32, bit; kc_compute;
